@@ -112,9 +112,10 @@ def theorem_modules(prop):
 def run_translators():
     """regenerate lean/LazeModel/Generated/*.lean from /repo/src (every run)"""
     problems = []
-    for t in ("containers.py", "panics.py", "steporder.py"):
-        tp = os.path.join(VERIF, "translators", t)
-        if os.path.exists(tp):
+    import glob
+    for tp in sorted(glob.glob(os.path.join(VERIF, "translators", "*.py"))):
+        t = os.path.basename(tp)
+        if True:
             rc, out = sh([sys.executable, tp], timeout=300)
             if rc != 0:
                 problems.append(f"translator {t} failed: {out[-500:]}")
